@@ -9,7 +9,7 @@
 From Coq Require Import List ZArith Permutation.
 From TskVerif Require Import Base.Common C15.Combination C15.Partitions C15.RankTree
   C15.TopoSpec C15.CombProofs C15.CombRankProofs C15.WRProofs C15.RankTreeBounded
-  C15.PartitionProofs C15.OorProofs C15.ChildOrderProofs C15.LabelOorProofs C15.RuleAscProofs C15.NumShapesTotal.
+  C15.PartitionProofs C15.OorProofs C15.ChildOrderProofs C15.LabelOorProofs C15.RuleAscProofs C15.NumShapesTotal C15.ShapeRankProofs C15.ShapeDenseProofs.
 Import ListNotations.
 Open Scope Z_scope.
 
@@ -181,3 +181,38 @@ Theorem unrank_oor_shape_rejected_all : forall n, 1 <= n ->
   exists nS, num_shapes n = Ok nS /\
     forall s l, nS <= s -> 0 <= l -> tree_unrank n s l = Err E_RANK.
 Proof. exact unrank_oor_shape_rejected_total. Qed.
+
+(* ---- (d) shape half of rank o unrank, UNBOUNDED ----
+   One level: the mixed-radix decode of children_shape_ranks (partition block, then one
+   with_replacement_unrank digit per leaf-count group) is inverted by compute_shape_rank. *)
+Theorem shape_level_inverse : forall n r part crs cl,
+  2 <= n -> 0 <= r ->
+  children_shape_ranks r n = Ok (part, crs) ->
+  map c_nl cl = part -> map c_srk cl = crs ->
+  compute_shape_rank cl = Ok r /\
+  Forall (fun c => exists v, num_shapes (c_nl c) = Ok v /\ 0 <= c_srk c < v) cl /\
+  zsum part = n /\ Forall (fun k => 1 <= k) part /\ (2 <= length part)%nat.
+Proof. exact level_inverse. Qed.
+
+(* Whole tree: whatever shape_unrank (the first half of Tree.unrank) returns for n >= 1 leaves
+   and a shape rank r >= 0 has n leaves, and at EVERY node the shape rank recomputed by
+   compute_shape_rank from the children equals the rank that was asked for there
+   ([shape_consistent]); i.e. rank(unrank(n,(r,_))).shape = r for every n.
+   Still open (kept as _partial in the comment above): the label half and unrank o rank. *)
+Theorem shape_unrank_then_rank : forall fuel n r sh,
+  1 <= n -> 0 <= r -> shape_unrank fuel n r = Ok sh ->
+  shape_consistent sh /\ sh_nl sh = n /\ sh_rk sh = r.
+Proof. exact shape_unrank_consistent. Qed.
+
+(* Density, UNBOUNDED: every shape rank of [0, num_shapes n) is accepted (no error, the fuel
+   n+1 suffices), and with unrank_oor_shape_rejected the accepted shape ranks are EXACTLY the
+   dense range, for every n >= 1. *)
+Theorem shape_unrank_dense : forall fuel n nS r,
+  1 <= n -> (Z.to_nat n < fuel)%nat -> num_shapes n = Ok nS -> 0 <= r < nS ->
+  exists sh, shape_unrank fuel n r = Ok sh.
+Proof. exact ShapeDenseProofs.shape_unrank_dense. Qed.
+
+Theorem shape_unrank_accepts_iff : forall n nS r,
+  1 <= n -> num_shapes n = Ok nS -> 0 <= r ->
+  ((exists sh, shape_unrank (S (Z.to_nat n)) n r = Ok sh) <-> r < nS).
+Proof. exact ShapeDenseProofs.shape_unrank_accepts_iff. Qed.
